@@ -236,7 +236,12 @@ fn run_case(line: &str) -> String {
 }
 
 fn main() {
-    std::panic::set_hook(Box::new(|_| {}));
+    // panics are outcomes here, not noise; VERIF_PANIC_MSG=1 shows where they come from
+    if std::env::var_os("VERIF_PANIC_MSG").is_some() {
+        std::panic::set_hook(Box::new(|info| eprintln!("PANIC: {}", info)));
+    } else {
+        std::panic::set_hook(Box::new(|_| {}));
+    }
     let args: Vec<String> = std::env::args().collect();
     match args.get(1).map(|s| s.as_str()) {
         Some("run") => {
